@@ -655,7 +655,7 @@ func TestCheck(t *testing.T) {
 	rand.Seed(seed)
 	scs := scenarios(r.Thorough())
 	r.Rule("for each scenario (tree size, [start,end), batch, parallel fetchers, matcher workers/buffer/kind, one-shot or continuous with growth steps), every choice vector with deviation cost <= bound: which pending GetRawEntries/GetSTH is answered next, with {full, every short length, 429, 500, network error, per-request timeout}; slow-consumer scenarios additionally gate every callback invocation, when the log grows, and Stop/cancel at any decision point. distinct_nontrivial = distinct (scenario, delivery order, request count) outcomes")
-	r.Assume("zero-length answers and zero/negative batch or worker counts are outside the property's domain and not generated",
+	r.Assume("zero/negative batch or worker counts are outside the property's domain and not generated; an empty entry list is generated as a fault (the fetcher must ask again)",
 		"back-off jitter (math/rand) is not owned; no oracle depends on it",
 		"interleavings are explored at the granularity of LogClient calls; accesses between calls are covered by the free-running race pass")
 	klog.LogToStderr(false)
